@@ -131,6 +131,10 @@ impl GateTracker {
                 }
             }
         }
+        // an awaited head suspends the caller's own block: it is never "just a sibling"
+        for (g, _) in &heads {
+            optional.remove(g);
+        }
         GateTracker { seqs, handler, optional, heads, tasks }
     }
     pub fn all(&self) -> Vec<u16> {
